@@ -177,7 +177,7 @@ def run(ck):
         return ck.finish(level="proof")
 
     # ---- correspondence: corpus first, then generated
-    n_cases = 40 if quick else 400
+    n_cases = 40 if quick else 300
     gen = os.path.join(ck.work, "cases.txt")
     vlib.sh([vlib.harness_bin("c15"), "gen", str(n_cases), gen])
     recs = []
